@@ -511,6 +511,7 @@ class CaseRunner:
         self.path_samples = {}
         self.validate(norm, paths)
         twin_done = False
+        dropped = 0
         for pi, (pc, trail, ctx) in enumerate(paths):
             if not ctx.obligations:
                 self.inconclusive.append({"obligation": "*", "reason": "path %d reached no obligation" % pi})
@@ -521,7 +522,14 @@ class CaseRunner:
                 text = em.script(self._domain_asserts(em, conds))
                 r = self.solve(text, "z3", self.budget.exact_timeout)
                 if r.status == "unsat":
-                    self.inconclusive.append({"obligation": "*", "reason": "vacuous: assumptions/path condition unsat (path %d)" % pi})
+                    # the explorer could not decide feasibility in its short budget and kept the path; it is infeasible
+                    if pc:
+                        self.stats["infeasible_paths_dropped"] = self.stats.get("infeasible_paths_dropped", 0) + 1
+                        dropped += 1
+                        if dropped == len(paths):
+                            self.inconclusive.append({"obligation": "*", "reason": "vacuous: every path condition is unsat"})
+                    else:
+                        self.inconclusive.append({"obligation": "*", "reason": "vacuous: assumptions unsat"})
                     continue
                 if r.status != "sat":
                     # unknown vacuity: rely on float-mode validation sample below
